@@ -60,6 +60,7 @@ class GProg:
     params: Tuple[Tuple[str, Any], ...] = ()  # (name, default | NODEFAULT)
     falsy: FrozenSet[Tuple[str, tuple]] = frozenset()  # (node id, path) whose token is falsy
     name: str = "d"
+    decl: str = "deco"  # how nodes are declared: "deco" = @xn(...) def f ; "call" = f = xn(f, ...) (function and options in one call)
 
     # ------------------------------------------------------------------ ids
     def ids(self) -> List[str]:
@@ -242,9 +243,14 @@ class GProg:
                 attrs.append(f"tag={n.tag!r}")
             if n.unpack is not None:
                 attrs.append(f"unpack_to={n.unpack}")
-            L.append(f"@xn({', '.join(attrs)})")
-            L.append(f"def {fn}(*a, **k):")
-            L.append(f"    return H.node_body({fn!r}, a, k)")
+            if self.decl == "call":
+                L.append(f"def {fn}(*a, **k):")
+                L.append(f"    return H.node_body({fn!r}, a, k)")
+                L.append(f"{fn} = xn({fn}, {', '.join(attrs)})")
+            else:
+                L.append(f"@xn({', '.join(attrs)})")
+                L.append(f"def {fn}(*a, **k):")
+                L.append(f"    return H.node_body({fn!r}, a, k)")
             L.append("")
         ps = ", ".join(nm if d == NODEFAULT else f"{nm}={d!r}" for nm, d in self.params)
         L.append(f"@dag(max_concurrency={self.mc}, is_async={self.is_async})")
@@ -283,7 +289,7 @@ class GProg:
                 for n in self.nodes
             ],
             "mc": self.mc, "is_async": self.is_async, "params": [list(p) for p in self.params],
-            "falsy": sorted([a, list(b)] for a, b in self.falsy), "name": self.name,
+            "falsy": sorted([a, list(b)] for a, b in self.falsy), "name": self.name, "decl": self.decl,
         }
 
     @staticmethod
@@ -298,7 +304,7 @@ class GProg:
             for n in d["nodes"]
         )
         return GProg(nodes=nodes, mc=d["mc"], is_async=d["is_async"], params=tuple((p[0], tup(p[1])) for p in d["params"]),
-                     falsy=frozenset((a, tup(b)) for a, b in d["falsy"]), name=d.get("name", "d"))
+                     falsy=frozenset((a, tup(b)) for a, b in d["falsy"]), name=d.get("name", "d"), decl=d.get("decl", "deco"))
 
 
 # ---------------------------------------------------------------------- shape enumeration
